@@ -272,7 +272,7 @@ def main():
                     elif cfg.get("pricer", 0) in (4, 5):
                         tag = "steepest-edge"
                     else:
-                        tag = "other"
+                        tag = "other:rt%s:simp%s" % (cfg.get("ratiotester", 3), cfg.get("simplifier", 3))
                     ck.violation("resolve-after-clearBasis-differs:%s" % tag,
                                  "solving the same unmodified object again after clearBasis() differs in %s (after re-seeding: %s) under %s" % (
                                      d.get("resolve_after_clearBasis"), d.get("resolve_reseeded"), cfg), rp)
